@@ -72,7 +72,7 @@ SEEDED = {
     "U07-A": ["C06", "C07"], "U07-B": ["C06", "C07"], "U08-A": ["C08"], "U08-B": ["C08"], "U11-A": ["C11", "C01"], "U11-B": ["C11", "C17"], "U12-A": ["C12", "C01"], "U12-B": ["C01", "C12"],
     "U13-A": ["C13", "C03"], "U13-B": ["C03", "C13"], "U14-A": ["C14", "C04"], "U14-B": ["C04", "C14"], "U15-A": ["C15"], "U15-B": ["C15"], "U16-A": ["C16"], "U16-B": ["C16"], "U17-A": ["C17", "C01"], "U17-B": ["C01", "C17"],
     "T01-A": ["C08", "C01"], "T01-B": ["C03", "C01", "C02"], "T02-A": ["C02", "C06"], "T02-B": ["C05", "C02"], "T03-A": ["C05", "C03"], "T03-B": ["C05", "C03"],
-    "T04-A": ["C04"], "T04-B": ["C04"], "T05-A": ["C05"], "T05-B": ["C05"], "T06-A": ["C06"], "T06-B": ["C08", "C06"], "T07-A": ["C08", "C07"], "T07-B": ["C07", "C08"],
+    "T04-A": ["C04"], "T04-B": ["C04", "C08"], "T05-A": ["C05"], "T05-B": ["C05"], "T06-A": ["C06"], "T06-B": ["C08", "C06"], "T07-A": ["C08", "C07"], "T07-B": ["C07", "C08"],
     "T08-A": ["C08"], "T08-B": ["C08"], "T09-A": ["C09"], "T09-B": ["C09"], "T11-A": ["C01", "C11"], "T11-B": ["C11"], "T12-A": ["C12"], "T12-B": ["C12"],
     "T13-A": ["C05", "C13"], "T13-B": ["C05", "C13"], "T14-A": ["C14"], "T14-B": ["C14"], "T15-A": ["C15", "C08"], "T15-B": ["C15", "C08"], "T16-A": ["C16"], "T16-B": ["C16"],
     "T17-A": ["C08", "C17"], "T17-B": ["C08", "C17"],
